@@ -29,6 +29,8 @@ contract(T + ".add_gene", "C20", params={"gene": "obj:Gene"}, ghost_params=Q, ra
              "re-add-refused-unless-enabled": "implies(not self.allow_mutations and gene.name in old(self)._genes, result is False and value_unchanged(self, old(self), q))",
              "other-genes-untouched": "implies(q != gene.name, value_unchanged(self, old(self), q))",
              "added-is-stored": "implies(result, gene.name in self._genes and self._genes[gene.name] is gene)",
+             # "exactly the non-silenced ... genes": a gene enters at the expression level it declares (a gene silenced by default is not expressed)
+             "added-starts-at-its-declared-expression": "implies(result, gene.name in self._expression and self._expression[gene.name].level == gene.default_expression)",
              "mutation-log-untouched": "len(self._mutations) == len(old(self)._mutations)",
          })
 
